@@ -237,6 +237,23 @@ func c17StampsDay(c *core.Ctx, k *core.Case) {
 
 // oracle "stamps-hourly": I=[year, location index] — one instant per hour of that year (odd second offsets)
 func c17StampsHourly(c *core.Ctx, k *core.Case) {
+	if len(k.I) > 2 && k.I[2] > 0 {
+		// the zone of the PROCESS (TZ / /etc/localtime, i.e. time.Local) is a fact of the host the
+		// library runs on; what a time stamp decodes to must not depend on it
+		old := time.Local
+		switch k.I[2] {
+		case 1:
+			time.Local = time.FixedZone("host+08", 8*3600)
+		case 2:
+			time.Local = time.FixedZone("host-0330", -(3*3600 + 1800))
+		default:
+			if l, err := time.LoadLocation("Europe/Berlin"); err == nil {
+				time.Local = l
+			}
+		}
+		defer func() { time.Local = old }()
+		c.Cover("process_zone", fmt.Sprint(k.I[2]))
+	}
 	loc := c17Loc(int(k.I[1]))
 	start := time.Date(int(k.I[0]), 1, 1, 0, 0, 0, 0, time.UTC).Unix()
 	end := time.Date(int(k.I[0])+1, 1, 1, 0, 0, 0, 0, time.UTC).Unix()
@@ -392,6 +409,17 @@ func init() {
 				}
 			}})
 		}
+		us = append(us, core.Unit{Name: "process-local-zone", Weight: 20, Run: func(c *core.Ctx) {
+			for z := int64(1); z <= 3; z++ {
+				for _, y := range []int64{2000, 2023, 2099} {
+					for _, li := range []int64{0, 1, 3, 4, 14} { // UTC first: the encoded zone octet is then 0
+						k := &core.Case{Oracle: "stamps-hourly", Target: "nasConvert.DecodeUniversalTimeAndLocalTimeZone", I: []int64{y, li, z}}
+						c.Do(k)
+						c.NonTrivial(k.Hash())
+					}
+				}
+			}
+		}})
 		us = append(us, core.Unit{Name: "names", Weight: 10, Run: func(c *core.Ctx) {
 			for n := 0; n <= 64; n++ {
 				for rep := 0; rep < c.Pick(6, 200); rep++ {
